@@ -212,7 +212,7 @@ def free_crash_scripts(name0):
 
 def run(ctx):
     rng = ctx.rng
-    prefix = "vf%d" % os.getpid()
+    prefix = "vf%d_names_that_share_a_long_common_prefix" % os.getpid()      # names differ only in their last characters
     # ---- M1
     ctx.design_must_hold("ipc/ShmAbs.tla", expect_actions=["MNew", "MWrite", "MLockCall", "MLockLin", "MUnlock", "MOwn", "MFree"])
     ctx.design_must_hold("ipc/ShmProto.tla", cfg="ShmProto_race_excl.cfg", coverage=False)
